@@ -1272,6 +1272,7 @@ class Interp:
             self.assume_invariants(spec, fr)
             self.assign(s.target, elem(k), fr)
             self.assume_lemmas(spec.get('lemmas', []), fr)
+            pre_env = dict(fr.env)
             try:
                 self.exec_block(s.body, fr)
             except ContinueEx:
@@ -1279,7 +1280,13 @@ class Interp:
             except BreakEx:
                 return      # continue after the loop with the state at the break
             self.check_promotion(s, fr, o)
-            self.assume_lemmas(spec.get('post_lemmas', []), fr)
+            # lemma instances at the back edge may relate the new state to the state at the head of the iteration: pre("x")
+            saved = self.spec_env.get('pre')
+            self.spec_env['pre'] = lambda name: pre_env[name]
+            try:
+                self.assume_lemmas(spec.get('post_lemmas', []), fr)
+            finally:
+                self.spec_env['pre'] = saved
             fr.env[idx] = ops.binop('+', k, 1)
             self.check_invariants(spec, fr, tag, 'preserve', s.lineno)
             raise PathEnd('loop body end')
